@@ -61,6 +61,23 @@ def missing_devices(rng, spec, p=0.25):
     return [nm for nm in names if rng.random() < p]
 
 
+def device_failures(rng, c):
+    """sensors / intelligent switches that fail by themselves (and are repaired by hand) around the power faults; such scenarios
+    are oracle-only (the loop model assumes devices in service)"""
+    ps = net.build(dict(c["spec"], exact=True))
+    devs = [s_.name for s_ in ps.sensors] + [i_.name for i_ in ps.intelligent_switches]
+    for k, fl in list(c["faults"].items()):
+        for name, rep in list(fl):
+            if type(ps.get_comp(name)).__name__ != "Line":
+                continue
+            own = [f"I{d.name}" for d in ps.get_comp(name).disconnectors if d.intelligent_switch is not None] + \
+                  ([f"S{name}"] if ps.get_comp(name).sensor is not None else [])
+            pick = rng.choice(own) if own and rng.random() < 0.6 else (rng.choice(devs) if devs else None)
+            if pick:
+                # fails shortly before the power fault, with a manual repair that outlasts the line's repair
+                c["faults"].setdefault(str(max(1, int(k) - rng.choice([0, 1, 1, 2]))), []).append([pick, str(rng.choice([F(3), F(6), F(8)]))])
+
+
 def fallible_ict(rng, spec):
     """an ICT network for a MainController spec: a few nodes, devices attached at random (some not at all)"""
     ps = net.build(dict(spec, exact=True))
@@ -92,6 +109,8 @@ def gen(rng, nm, na):
                         for _ in range(rng.choice([1, 1, 2])):
                             kk = max(1, kr - rng.choice([0, 1, 1, 2]))
                             c["faults"].setdefault(str(kk), []).append([f"IL{rng.randrange(len(ict['lines']))}", str(rng.choice([F(2), F(3), F(7, 2)]))])
+        if c["spec"]["ctrl"]["type"] == "main" and rng.random() < 0.4:
+            device_failures(rng, c)
         cases.append(c)
     return cases
 
@@ -101,7 +120,7 @@ def run(res):
     nm, na = (50, 50) if res.tier == "quick" else (1500, 1000)
     res.rule = ("fault histories as in C05 (1-4 overlapping line faults, microgrids in all modes, ties) followed by a quiet tail of ceil((T+3)/dt)+6 increments; "
                 "manual control (model + implementation) and MainController with no ICT network or with a random ICT network in which ~20% of sensors / "
-                "intelligent switches have no ICT node and communication lines fail and are repaired while sections are isolated / reconnected (implementation only). non-trivial = distinct (lines, any fault, increments until normal, microgrid, automatic)")
+                "intelligent switches have no ICT node and communication lines fail and are repaired while sections are isolated / reconnected; 30% of the automatic scenarios also have sensors / intelligent switches that fail by themselves (oracle only). non-trivial = distinct (lines, any fault, increments until normal, microgrid, automatic)")
     run_cases(res, gen(rng, nm, na), handler, compare)
 
 
